@@ -6,7 +6,7 @@ from typing import Any, Dict, Optional
 
 from vlib import codec_common as CC
 from vlib import frontend, refcodec
-from vlib.runner import Ctx, HarnessError, Violation, hyp_run, unpickle_b64
+from vlib.runner import REPO, Ctx, HarnessError, Violation, hyp_run, unpickle_b64
 
 LEVEL = "exploration"
 RULE = (
@@ -81,7 +81,7 @@ def check_vectors(known: Any = (), rec: Any = None) -> Optional[Dict[str, Any]]:
     cache: Dict[str, Any] = {}
     for sch, fname, dt, val, data, tname in refcodec.load_vectors():
         if fname not in cache:
-            r = get_fcp(f"/repo/tests/standardized/{fname}", Logger({}))
+            r = get_fcp(f"{REPO}/tests/standardized/{fname}", Logger({}))
             if r.is_err():
                 raise HarnessError(f"front end rejects {fname}")
             cache[fname] = r.unwrap()
